@@ -161,7 +161,7 @@ def step_decisions(case, out):
 
 
 def observe_all(cases, backends=BACKENDS, l2_steps=False):
-    return [{b: observe(c, b, l2_steps) for b in backends} for c in cases]
+    return [{b: observe(c, b, l2_steps) for b in backends if b in c.get("only", backends)} for c in cases]
 
 
 def case_block(i, case, obs: dict, backends=BACKENDS) -> tuple[str, list]:
@@ -169,6 +169,8 @@ def case_block(i, case, obs: dict, backends=BACKENDS) -> tuple[str, list]:
     txt = [f"Definition db{i} : db := {ser.db_to_coq(case['tables'])}."]
     slots = []
     for bi, b in enumerate(backends):
+        if b not in obs:
+            continue
         o = obs[b]
         if (o.ast_coq is None or o.names is None) and not o.steps_coq:
             continue
